@@ -539,7 +539,10 @@ impl Resolver {
                 _ => segs,
             };
 
-            let def_id = self.blocks.iter().rev().find_map(|b| {
+            // Outermost block (the file) first: a path that is qualified from the root of the package -- every
+            // protobuf type name is -- must not be captured by an equally named item of an enclosing nested
+            // module (a oneof or a nested message called like a top-level message). Thrift files have one block.
+            let def_id = self.blocks.iter().find_map(|b| {
                 let b = unsafe { b.as_ref() };
                 self.find_path_in_table(segs, ns, b)
             });
